@@ -12,6 +12,116 @@ EXPLORATION_NOTE = ("trusted base: Go std crypto primitives and math/big, rapid 
                     "(self-tested against RFC vectors and std on every run); establishes the property for the generated cases only")
 
 META = {
+    "C01": {
+        "technique": "property-based testing (rapid): round trip protect -> unprotect through two separate SA objects, all 9 suites x 2 roles x 2 header modes; differential nil-key path vs plain codec",
+        "level_text": "Round-trip oracle between two independently constructed SA objects holding the same key bytes (sender role r, receiver role !r), over generated domain messages (empty list included), all nine suites, both roles, header pre-parsed or not, random keys; the library's IV/padding draws come from the real source or from an injected stream (all-zero / all-0xff / drawn). With no key the entry points are compared with plain Encode/Decode. Exploration.",
+        "level_note": EXPLORATION_NOTE,
+        "rule": "rapid draws (message of the encodable domain whose protected form fits 16 bits, suite, 4 keys with distinct directions, sender role, header mode, optional entropy stream); every case is non-trivial (the empty payload list goes through the keyed path too); distinct by hash of the input; labels count suites, directions, header modes",
+        "assumptions": COMMON_ASSUME + ["SK_e/SK_a of the two directions are distinct (guaranteed by construction, as a real key derivation gives them)"],
+    },
+    "C02": {
+        "technique": "property-based testing (rapid) + exhaustive single-bit flips / prefixes per message; oracle: error (or, for a changed first-payload type, exactly the nil-key outcome); spy cipher and spy MAC objects observe call order",
+        "level_text": "For each generated protected message (library- or reference-produced): EVERY single-bit flip, every proper prefix, extensions (also shaped like skippable payloads, with and without adjusted length), multi-octet edits, header/body, body/ICV and IV/ciphertext splices of two messages under the same keys, presentation under unrelated keys (all keys or integrity keys only) and reflection to the producing role must end in an error with zero Decrypt calls seen by a spy cipher; for the genuine message the spy log must show the MAC computed over exactly the received bytes before the single Decrypt call on the sender-direction cipher. Exploration, exhaustive per message for flips and prefixes (messages up to ~500 inner octets).",
+        "level_note": EXPLORATION_NOTE + "; HMAC forgeries (<= 2^-96) are treated as impossible; the ordering assertions are made only if the spies observe the genuine path at all",
+        "rule": "a case = one genuine protected message with its whole family of alterations (thousands of DecodeDecrypt calls); all cases are non-trivial; distinct by hash of the input; labels count alteration classes (flip:header/sk-header/iv/ciphertext/icv, prefix, extension, edit, splice:*, cross-key, reflection, carve-out)",
+        "assumptions": COMMON_ASSUME + ["an altered input is never byte-identical to a genuine message (asserted by construction)"],
+    },
+    "C06": {
+        "technique": "property-based testing (rapid): differential against an independent SK opener / builder (RFC 7296 s3.14), both directions, all 16 legal pad lengths",
+        "level_text": "Forward: the library's protected message is opened by a reference receiver (own HMAC, own CBC, strict inner parser) that checks header, single SK payload, next-payload field, both length fields, IV, ICV over everything before it, padding law, and recovers the payloads. Reverse: a reference sender builds the message with every legal pad length (0..255 compatible with the block size), arbitrary pad octets and IV; the library must accept and decode it. Exploration.",
+        "level_note": EXPLORATION_NOTE,
+        "rule": "rapid draws (message, suite, keys, direction, header mode); reverse cases try all 16 legal pad lengths each; all cases non-trivial; distinct by hash of the input",
+        "assumptions": COMMON_ASSUME,
+    },
+    "C07": {
+        "technique": "property-based testing (rapid): differential against RFC-text prf+/SKEYSEED/key slicing, probes of the keyed objects, two-party runs through NewIKESAKey with reference modexp",
+        "level_text": "SK_d..SK_pr are compared with slices of the reference prf+(prf(Ni|Nr, g^ir), Ni|Nr|SPIi|SPIr) for generated nonces/secrets/SPIs over all 27 algorithm combinations x 2 groups (every 20th case sweeps all 54); the SA's Integ/Prf objects must equal the reference HMAC under the respective key on a probe string and the cipher objects must interoperate with textbook CBC under SK_ei/SK_er. Two-party: initiator (library exponent under injected entropy) and responder (NewIKESAKey on the proposal, optionally through the wire) must both equal the reference derivation from B^a mod p and open each other's messages. Exploration.",
+        "level_note": EXPLORATION_NOTE,
+        "rule": "derive: (suite, nonces 1..512, secret 1..512 incl. leading zeros, SPIs); two-party: (suite, nonces, SPIs, two entropy streams, message); all non-trivial; distinct by hash",
+        "assumptions": COMMON_ASSUME + ["key/output lengths typed in from RFC 2403/2404/4868/3602/7296"],
+    },
+    "C08": {
+        "technique": "property-based testing (rapid) over derivation histories on one SA object: RFC-text KEYMAT and fresh-copy differential after every step",
+        "level_text": "Sequences of up to 200 Child SA derivations (3 key sizes x {none, 3 integrity algorithms}, nonces 0..256 octets) on ONE IKE SA object; after every step the four keys must equal the slices of the reference prf+(SK_d, Ni|Nr) in the order ei, ai, er, ar and the result of the same derivation on a freshly constructed copy. SK_d is installed directly or produced by a full IKE SA derivation. Exploration.",
+        "level_note": EXPLORATION_NOTE,
+        "rule": "a case = one history; non-trivial = at least 2 derivations; distinct by hash; labels: no-integrity, KEYMAT > 1 / > 3 prf blocks, empty nonce, 100th derivation",
+        "assumptions": COMMON_ASSUME,
+    },
+    "C09": {
+        "technique": "property-based testing (rapid) + deterministic tables: differential against primes computed from the RFC pi formula and a square-and-multiply modexp; entropy-stream and fault injection through crypto/rand.Reader",
+        "level_text": "Prime identity through the API (GetSharedKey(1, P-1 / P / P+1) for P from the RFC formula), public/shared values against a reference modexp for edge exponents (0, 1, 2, p-2..p+1, 2^k+-1, small, random) and peer values up to 2^2056, two-party agreement, exact output length with leading zeros; GenerateRandomNumber under injected entropy (function of the stream, range, consumption, too-small candidates skipped, different streams differ) and failure injected at every read of the random source for GenerateRandomNumber, CalculateDiffieHellmanMaterials and NewIKESAKey (error and no key). Exploration plus enumerated fault points.",
+        "level": "fault_enumeration",
+        "level_note": EXPLORATION_NOTE + "; relies on go1.23 crypto/rand semantics (replaceable Reader, Read returns errors)",
+        "rule": "values: (group, exponent x, second exponent, peer value y) from a mixture of special and random values; exponents: (entropy stream, mode); non-trivial = a result with a leading zero octet, an operand >= p, a special exponent, or any entropy/fault case; distinct by hash",
+        "assumptions": COMMON_ASSUME + ["the RFC 2409 / RFC 3526 primes are reproduced from 2^n - 2^(n-64) - 1 + 2^64 (floor(2^(n-130) pi) + c) with pi from Machin's series; both are checked to be safe primes at start-up"],
+    },
+    "C10": {
+        "technique": "exhaustive tables (wrong key sizes 0..64; ciphertext lengths 0..96 x 256 pad-length octets; fault at every read) + property-based testing (rapid) of call histories on one cipher object against textbook AES-CBC",
+        "level_text": "Histories of encrypt / decrypt-reference-ciphertext (any legal pad length) / decrypt-garbage / encrypt-with-failing-source on ONE cipher object: inverse, size law n < 16k <= n+256, textbook-CBC structure and pad-length octet, IV is a 16-octet chunk handed out by the (injected) random source during the call, no IV repeats with the system source, long-lived object == fresh object (same stream => same ciphertext), error and nil ciphertext when the source fails; exhaustive: keys of every wrong size refused, every short/misaligned length and every recovered pad-length octet against the reference accept/reject rule. Exploration with exhaustive sub-tables and enumerated fault points.",
+        "level": "fault_enumeration",
+        "level_note": EXPLORATION_NOTE + "; relies on go1.23 crypto/rand semantics",
+        "rule": "history cases: (key size, key, 1..8 operations); non-trivial = a plaintext longer than one block or of length = 15, 0 mod 16, a fault that fired, or a history of >= 2 operations; table cases are all non-trivial; distinct by hash",
+        "assumptions": COMMON_ASSUME,
+    },
+    "C11": {
+        "technique": "exhaustive enumeration (all advertised algorithms and single-choice proposals; all 65536 transform identifiers x 42 attribute classes x 7 decode functions, directly and via the wire, in the thorough tier) + property-based testing (rapid) of ill-formed proposals against a reference mapping table",
+        "level_text": "Every advertised name -> descriptor -> transform -> real SA payload on the wire -> descriptor must be the identity with RFC lengths; all 54 IKE and all Child single-choice proposals must rebuild the same algorithms; every transform identifier with every attribute class (absent, key length with boundary values, foreign types incl. 14+128k, TLV) through each decode function must match the reference mapping (never a different identifier or key size); proposals with an unsupported transform must not yield an SA. The thorough tier enumerates the full identifier space (exhaustive), the quick tier boundary identifiers.",
+        "level_note": EXPLORATION_NOTE,
+        "rule": "table cases = (8 identifiers, 42 attribute classes) each evaluated for 7 decode functions x {direct, via wire}; non-trivial = contains an identifier <= 14 or a key-length class; advertised/bad-proposal cases all non-trivial; distinct by hash",
+        "assumptions": COMMON_ASSUME + ["transform structs offered directly to the decode functions are consistent (AttributePresent=false implies zero attribute fields), as the wire decoder and the builders produce them"],
+        "exhaustive_all": ["advertised"],
+    },
+    "C14": {
+        "technique": "property-based testing (rapid): round trip + strict independent EAP parser + get-equals-set through the public attribute API; exhaustive setter size table",
+        "level_text": "EAP packets of every method built through the API (SetAttr in random order with overwrites) are marshalled 9 times (identical bytes), parsed by a strict reference parser (length field, Success/Failure bare, expanded layout, attribute lengths in words, zero padding, exact bit lengths, attributes once) and decoded again; values read back after SetAttr and after decode must equal the values set; every fixed-size attribute x every size 0..300 against the allowed set. Exploration with an exhaustive setter table.",
+        "level_note": EXPLORATION_NOTE,
+        "rule": "codec cases: EAP model (+ SetAttr call sequence); non-trivial = AKA' with >= 2 attributes or a value whose length is not a multiple of 4 or AT_CHECKCODE, or expanded with data; setter table cases all non-trivial; distinct by hash",
+        "assumptions": COMMON_ASSUME,
+    },
+    "C15": {
+        "technique": "property-based testing (rapid): reference HMAC-SHA-256-128 over the wire image, sender/receiver agreement, per-octet sensitivity, independent encoder with arbitrary attribute order",
+        "level_text": "Sender: the MAC returned for an API-built packet equals the reference HMAC over the marshalled packet with the AT_MAC value zeroed (field located by the reference parser), whatever AT_MAC held before. Receiver: after decoding the transmitted packet (library-built, or reference-built with attributes in any order) the computed value equals the carried one; every single-octet alteration of the packet that still decodes, and a changed key, must make computed != carried. Exploration, exhaustive over octets per packet (<= 200 octets).",
+        "level_note": EXPLORATION_NOTE,
+        "rule": "case = (K_aut of 32 or 0..80 octets, AKA' packet, previous AT_MAC, reference-built flag and attribute order); non-trivial = padded attribute, >= 3 attributes, or reference-built; distinct by hash",
+        "assumptions": COMMON_ASSUME + ["reserved octets in reference-built packets are zero, as RFC 4187 demands of a sender"],
+    },
+    "C16": {
+        "technique": "property-based testing (rapid): differential against RFC 5448 PRF' written out over the reference HMAC",
+        "level_text": "The five outputs are compared with octets 0-15, 16-47, 48-79, 80-143, 144-207 of the reference PRF'(IK'|CK', \"EAP-AKA'\"|Identity) for keys of 1..64 octets (mostly 16, unequal lengths favoured) and identities of 0..255 arbitrary octets (non-UTF-8, NULs, the prefix itself); empty IK'/CK' must be refused. Exploration.",
+        "level_note": EXPLORATION_NOTE,
+        "rule": "case = (IK', CK', identity octets); non-trivial = unequal key lengths, an identity octet >= 0x80 or NUL, or any non-empty identity; distinct by hash",
+        "assumptions": COMMON_ASSUME,
+    },
+    "C17": {
+        "technique": "property-based testing (rapid) over operation histories (<= 64) on one long-lived SA object vs fresh objects and the reference, checked after every step",
+        "level_text": "Histories over {protect as either role, unprotect genuine (from a fresh library peer or the reference builder), unprotect tampered / truncated / garbage (also SK-shaped garbage reaching the MAC), derive Child SA} on ONE IKESAKey; before every step a fresh SA is built from the same bytes: what L protects a fresh peer and the reference open, genuine messages are accepted with the right content, forged ones rejected, garbage gives the fresh object's outcome, child keys equal fresh-object and reference keys. Exploration.",
+        "level_note": EXPLORATION_NOTE,
+        "rule": "case = (suite, keys, 1..64 operations); non-trivial = >= 3 steps containing a rejected input followed by a genuine one, or two protects in a row; distinct by hash",
+        "assumptions": COMMON_ASSUME,
+    },
+    "C18": {
+        "technique": "property-based testing (rapid) of goroutine program sets under the Go race detector: concurrent results == sequential results",
+        "level_text": "Generated sets of 2..64 goroutine programs (encode, decode, protect/unprotect, IKE/Child key derivation, DH, transform mapping, EAP codec/MAC/PRF', random numbers, decoding of one shared read-only slice), each on its own SA and messages, are run alone and then concurrently (GOMAXPROCS 2..16, drawn yield points) in a binary built with -race: any race report, any result differing from the sequential run, or a modified shared slice is a violation. The technique does not own the scheduler: schedules are sampled, not enumerated; a clean run is evidence for the schedules that happened. Exploration with a detector.",
+        "level_note": EXPLORATION_NOTE + "; Go race detector (happens-before based) is trusted; failures here are schedule-dependent and do not shrink - the replay artefact is the race log / the program set",
+        "rule": "case = one burst (program set, GOMAXPROCS); non-trivial = >= 4 goroutines with on average >= 1.5 operations each and >= 2 operation kinds; distinct by hash",
+        "assumptions": COMMON_ASSUME + ["interleavings are produced by the Go runtime scheduler; none is forced"],
+        "race": True, "shards": 8,
+    },
+    "C19": {
+        "technique": "property-based testing (rapid) over builder arguments and prior container contents: fields == arguments, append-exactly-one, encoding parsed by the reference == TS 24.502 layouts built by the reference",
+        "level_text": "NewHeader/NewMessage and all 27 Build* functions are called with generated arguments (octet strings up to 70000 where a limit exists, NAS PDUs up to 70000, QFI lists up to 300, all flag combinations) on containers with generated prior contents: the container grows by exactly one, earlier payloads are the same objects with unchanged fields, the new payload's fields equal the arguments, its encoding parsed by the independent parser equals the expected layout (3GPP layouts built by the reference from the arguments), and oversize arguments end in a builder or encode error, never a successful encoding with different fields. Exploration.",
+        "level_note": EXPLORATION_NOTE,
+        "rule": "case = (builder, arguments, prior contents); all non-trivial except EapExpanded without data; distinct by hash; labels count every builder and oversize/unencodable arguments",
+        "assumptions": COMMON_ASSUME + ["numeric arguments wider than their wire field (CP attribute type >= 2^15) are outside the builders' domain"],
+    },
+    "C20": {
+        "technique": "property-based testing (rapid): metamorphic scribble-invariance of decoded messages, reflection walk for memory overlap with the input, repeated-encode determinism, before/after models around Encode and EncodeEncrypt",
+        "level_text": "Decode / DecodeDecrypt from a private buffer with spare capacity, snapshot the model, overwrite the whole buffer twice, snapshot again: equal; independently a reflection walk over all reachable slices (exported or not) must find none overlapping the buffer (IKEHeader.PayloadBytes excepted). Encode three times: identical bytes, unchanged message, result not referenced by the payloads, overwriting it changes neither the message nor the next encoding. EncodeEncrypt: payload objects the caller holds, the seven header fields and the SA key bytes unchanged, payload list == exactly one Encrypted payload. Exploration.",
+        "level_note": EXPLORATION_NOTE,
+        "rule": "decode cases: accepted byte strings (canonical / liberties / mutated / short-body / raw) and reference-protected messages; encode cases: domain messages; non-trivial = message with at least one variable-length field; distinct by hash",
+        "assumptions": COMMON_ASSUME,
+        "fuzz": [{"name": "FuzzC20Ownership", "seconds": 60}],
+    },
     "C03": {
         "technique": "property-based testing (rapid): round trip decode(encode(m)) == m over generated domain messages",
         "level_text": "Generated-input search with a round-trip oracle on the harness's own message model; thousands of structurally diverse messages per run including boundary sizes (SPI 248-255, attribute types >= 128, TLV attributes, 64 KiB payloads, all 15 payload kinds). Exploration, not proof.",
